@@ -300,3 +300,41 @@ pub fn mutate(rng: &mut Rng, s: &[u8]) -> Vec<u8> {
     }
     v
 }
+
+/// Non-ASCII look-alikes of a well-formed text: ONE character replaced by a Unicode character that a Unicode-aware
+/// case mapping, digit test, normalisation or dash class would turn into the ASCII one (KELVIN SIGN lower-cases to
+/// `k`, LONG S upper-cases to `S`, DOTLESS I upper-cases to `I`, full-width letters / digits, Arabic-Indic digits,
+/// HYPHEN / NON-BREAKING HYPHEN / MINUS SIGN / FULLWIDTH HYPHEN-MINUS / SOFT HYPHEN for the separator).  None of them
+/// is an ASCII letter, digit, '-' or '_', so every entry point must reject the result, and all entry points must agree.
+pub fn lookalikes(s: &str) -> Vec<String> {
+    let cs: Vec<char> = s.chars().collect();
+    let mut out = vec![];
+    for (i, c) in cs.iter().enumerate() {
+        let mut reps: Vec<char> = vec![];
+        match c.to_ascii_lowercase() {
+            'k' => reps.push('\u{212a}'),
+            's' => reps.push('\u{17f}'),
+            'i' => { reps.push('\u{131}'); reps.push('\u{130}'); }
+            'a' => reps.push('\u{212b}'),
+            _ => {}
+        }
+        if c.is_ascii_uppercase() { reps.push(char::from_u32(0xff21 + (*c as u32 - 'A' as u32)).unwrap()); }
+        if c.is_ascii_lowercase() { reps.push(char::from_u32(0xff41 + (*c as u32 - 'a' as u32)).unwrap()); }
+        if c.is_ascii_digit() {
+            let d = *c as u32 - '0' as u32;
+            reps.push(char::from_u32(0xff10 + d).unwrap());
+            reps.push(char::from_u32(0x660 + d).unwrap());
+            reps.push(char::from_u32(0x2080 + d).unwrap());
+        }
+        if *c == '-' || *c == '_' { for d in ['\u{2010}', '\u{2011}', '\u{2212}', '\u{ff0d}', '\u{ad}', '\u{fe63}', '\u{ff3f}'] { reps.push(d); } }
+        for r in reps {
+            let mut v = cs.clone();
+            v[i] = r;
+            out.push(v.into_iter().collect());
+        }
+    }
+    out
+}
+pub const LOOKALIKE_BASES: [&str; 24] = ["ko", "KO", "sk", "is", "si", "ks-Arab-IN", "sr-Cyrl-RS", "kk-Cyrl-KZ", "en-US", "es-419", "de-CH-1996", "sl-rozaj-biske-1994",
+    "ja-Kana-JP", "uk", "ki", "ska", "en_Latn_US", "zh-Hans-SG-pinyin", "en-US-u-ks-level1-nu-arab", "tr-TR-u-kk-true", "en-t-ks-Arab-k0-isiri-s0-ascii", "de-x-kiswahili",
+    "ru-Cyrl-KZ-u-ca-islamic-t-kk-i0-skt", "und-Kits-SK"];
